@@ -146,11 +146,22 @@ Fixpoint hist_sig (e : env) (fs : fmap) (ops : list op) (obs : list bobs) : Z :=
       end
   end.
 
-Definition sig_of (c : case) (obs : list Z) : Z :=
-  match dec_obs (c_nf c) (n_calls (c_ops c)) obs with
-  | Some bs => hist_sig (c_env c) (c_fs c) (c_ops c) bs
-  | None => 0
+Fixpoint eq_listZ (a b : list Z) : bool :=
+  match a, b with
+  | [], [] => true
+  | x :: a', y :: b' => (x =? y) && eq_listZ a' b'
+  | _, _ => false
   end.
+
+(* a known-finding signature is only returned when the implementation's WHOLE observable of the
+   case equals the faithful model's (so nothing else can hide behind a recorded shape) *)
+Definition sig_of (c : case) (obs : list Z) : Z :=
+  if eq_listZ (run_obs c) obs then
+    match dec_obs (c_nf c) (n_calls (c_ops c)) obs with
+    | Some bs => hist_sig (c_env c) (c_fs c) (c_ops c) bs
+    | None => 0
+    end
+  else 0.
 
 (* ---------- stream "leveled" ----------
    input : ver nd par[1..nd-1] nk kinds[nk] start[nd*nk] nops ops...
